@@ -139,6 +139,15 @@ def make_case2(rng, idx, wf, rf, order, acks=1):
     return {"cluster": spec, "ops": ops, "meta": {"kind": "produce2", "first": first, "tag": "two_broker" if acks else "two_broker_noack", "plan": plan}}
 
 
+def make_poll_case(rng, plan, tag):
+    """the same faults under Consumer::poll: the layer above the client must not turn a failed exchange into a (empty) success"""
+    spec = cluster_spec(1, 1, 1)
+    ops = boot_ops(spec) + [T("consumer_build", [T("from_client"), [T("with_topic", [T1]), T("with_fallback_offset", [T("earliest")])]])]
+    first = len(ops)
+    ops.append({"op": T("poll"), "plan": plan})
+    return {"cluster": spec, "ops": ops, "meta": {"kind": "poll", "first": first, "tag": tag, "plan": plan}}
+
+
 def gen(rng, tier):
     cases = []
     quick = tier == "quick"
@@ -204,6 +213,11 @@ def gen(rng, tier):
         for which in (0, 0, 1):
             for follow in ([("commit", 1), ("offsets", 1)], [("commit", 0)], [("offsets", 0), ("commit", 1)]):
                 cases.append(make_case(rng, "metadata", {"write": {0: wf}}, follow=follow, nb=1, which=which, tag="metadata_write_refused"))
+    # (i) Consumer::poll with a fault at every I/O index of its fetch exchange
+    for idx in range(0, 4):
+        for wf, rf in FAULT_PAIRS:
+            cases.append(make_poll_case(rng, {"write": {idx: wf}, "read": {idx: rf}}, "poll_fault"))
+        cases.append(make_poll_case(rng, {"write_chunk": 7, "read_chunk": 5, "read": {idx + 3: ["fail", "timeout"]}}, "poll_fault"))
     # (e) refused connects
     for kind in KINDS:
         for h in (1, 2):
@@ -306,6 +320,20 @@ def oracle(case, recs, cl):
     appended = 0            # messages the leader appended to t1:0 so far (from the produce requests it received)
     cleared = False         # a failed load_metadata_all leaves the client without metadata
     tainted = set()         # hosts whose connection an earlier exchange of this case left out of step (failed read / partial write)
+    if m["kind"] == "poll":
+        if len(recs) <= m["first"]:
+            return ["C15: poll case stopped early: %s" % dumps(recs[-1]["impl"])[:100]]
+        rec = recs[m["first"]]
+        res = rec["impl"]
+        if res.name in ("panic", "hang", "abort"):
+            return ["C15: poll: %s under a legal stream behaviour" % res.name]
+        sends, orphan, refused = exchanges(rec)
+        broken = refused or any(s.failed or s.read_fault or not s.complete for s in sends) or \
+            any(e.name in ("read", "write") and e.args[2].name == "fail" for e in rec["raw_events"])
+        if broken and res.name == "ok":
+            return ["C15: poll: the fetch exchange failed (%s) but Consumer::poll returned success: %s" % (
+                [e.args[2].args[0].name for e in rec["raw_events"] if e.name in ("read", "write") and e.args[2].name == "fail"][:2], dumps(res)[:80])]
+        return []
     for i, rec in enumerate(recs):
         item = case["ops"][i]
         op = item["op"] if isinstance(item, dict) else item
